@@ -9,6 +9,7 @@ import (
 	"encoding/binary"
 	"fmt"
 	"sort"
+	"strings"
 	"testing"
 
 	"google.golang.org/protobuf/proto"
@@ -19,6 +20,7 @@ import (
 	"github.com/tink-crypto/tink-go/v2/hybrid"
 	"github.com/tink-crypto/tink-go/v2/hybrid/hpke"
 	"github.com/tink-crypto/tink-go/v2/insecurecleartextkeyset"
+	"github.com/tink-crypto/tink-go/v2/jwt"
 	"github.com/tink-crypto/tink-go/v2/key"
 	"github.com/tink-crypto/tink-go/v2/keyset"
 	"github.com/tink-crypto/tink-go/v2/mac"
@@ -27,6 +29,7 @@ import (
 	tinkpb "github.com/tink-crypto/tink-go/v2/proto/tink_go_proto"
 	"github.com/tink-crypto/tink-go/v2/signature"
 	"github.com/tink-crypto/tink-go/v2/signature/mldsa"
+	"github.com/tink-crypto/tink-go/v2/signature/rsassapkcs1"
 	"github.com/tink-crypto/tink-go/v2/signature/rsassapss"
 	"github.com/tink-crypto/tink-go/v2/signature/slhdsa"
 	"github.com/tink-crypto/tink-go/v2/streamingaead"
@@ -108,15 +111,23 @@ func aeadConfigs(t *testing.T) []*aeadcase.Case {
 	for salt := 8; salt <= 12; salt++ {
 		add(aeadcase.Case{Type: "XAESGCM", Key: key[:32], TagSize: 16, NonceLen: salt + 12, IVSize: 12, SaltSize: salt})
 	}
+	subtle := func(c aeadcase.Case) {
+		c.Variant, c.Route = tk.NoPrefix, "subtle"
+		if err := c.Rebuild(); err != nil {
+			t.Fatalf("subtle construction of %v: %v", &c, err)
+		}
+		out = append(out, &c)
+	}
 	for _, kl := range []int{16, 32} { // subtle constructors (no key object)
 		for _, typ := range []string{"AESGCM", "AESGCMSIV"} {
-			c := aeadcase.Case{Type: typ, Key: key[:kl], TagSize: 16, NonceLen: 12, IVSize: 12, Variant: tk.NoPrefix, Route: "subtle"}
-			if err := c.Rebuild(); err != nil {
-				t.Fatal(err)
-			}
-			out = append(out, &c)
+			subtle(aeadcase.Case{Type: typ, Key: key[:kl], TagSize: 16, NonceLen: 12, IVSize: 12})
+		}
+		for _, iv := range []int{12, 16} {
+			subtle(aeadcase.Case{Type: "AESCTRHMAC", Key: key[:kl], MacKey: key[32:64], Hash: "SHA256", TagSize: 16, NonceLen: iv, IVSize: iv})
 		}
 	}
+	subtle(aeadcase.Case{Type: "CHACHA20POLY1305", Key: key[:32], TagSize: 16, NonceLen: 12, IVSize: 12})
+	subtle(aeadcase.Case{Type: "XCHACHA20POLY1305", Key: key[:32], TagSize: 16, NonceLen: 24, IVSize: 12})
 	return out
 }
 
@@ -124,12 +135,27 @@ func aeadConfigs(t *testing.T) []*aeadcase.Case {
 func TestAEADNonces(t *testing.T) {
 	detrand.Seed(seed())
 	n := nOps(1)
+	// The history under one key is not one loop over one object: the plaintext length and the
+	// associated data change from call to call (a few fixed values, so that a nonce computed from the
+	// inputs repeats), and every 97 calls the primitive is built again from the same key (a nonce
+	// sequence that restarts with the object repeats).  "Across any number of calls under one key."
+	long := bytes.Repeat([]byte("0123456789abcdef"), 300)
+	pts := [][]byte{[]byte("same plaintext every time"), {}, long[:1], long[:64], long[:300], long}
+	ads := [][]byte{nil, []byte("associated data"), long[:257]}
 	for _, c := range aeadConfigs(t) {
 		plen := len(c.Prefix())
 		nonces := make([][]byte, n)
-		pt := []byte("same plaintext every time")
 		for i := range nonces {
-			ct, err := c.P.Encrypt(pt, nil)
+			if i%97 == 96 {
+				if err := c.Rebuild(); err != nil {
+					t.Fatalf("%v: building the primitive again: %v", c, err)
+				}
+			}
+			pt, ad := pts[0], ads[0]
+			if i%4 == 3 {
+				pt, ad = pts[(i/4)%len(pts)], ads[(i/8)%len(ads)]
+			}
+			ct, err := c.P.Encrypt(pt, ad)
 			if err != nil {
 				t.Fatalf("%v: %v", c, err)
 			}
@@ -474,6 +500,8 @@ func TestFreshKeys(t *testing.T) {
 		{"ED25519", signature.ED25519KeyTemplate(), 4, nil}, {"ECDSAP256", signature.ECDSAP256KeyTemplate(), 8, nil}, {"ECDSAP384", signature.ECDSAP384SHA384KeyTemplate(), 32, nil}, {"ECDSAP521", signature.ECDSAP521KeyTemplate(), 64, nil},
 		{"HPKE-X25519", hybrid.DHKEM_X25519_HKDF_SHA256_HKDF_SHA256_AES_128_GCM_Key_Template(), 4, nil}, {"HPKE-P256", hybrid.DHKEM_P256_HKDF_SHA256_HKDF_SHA256_AES_128_GCM_Key_Template(), 8, nil},
 		{"ECIES-P256", hybrid.ECIESHKDFAES128GCMKeyTemplate(), 8, nil},
+		{"JWT-HS256", jwt.HS256Template(), 1, nil}, {"JWT-HS512-RAW", jwt.RawHS512Template(), 1, nil}, {"JWT-ES256", jwt.ES256Template(), 8, nil}, {"JWT-ES512-RAW", jwt.RawES512Template(), 64, nil},
+		{"AES128CTRHMAC", aead.AES128CTRHMACSHA256KeyTemplate(), 1, nil},
 	}
 	for _, m := range tms {
 		n := nOps(m.div)
@@ -504,6 +532,12 @@ func TestFreshKeys(t *testing.T) {
 	pq["SLH-DSA-SHA2-128f"] = tk.Must(slhdsa.NewParameters(slhdsa.SHA2, 64, slhdsa.FastSigning, slhdsa.VariantTink))
 	pq["HPKE-XWING"] = tk.Must(hpke.NewParameters(hpke.ParametersOpts{KEMID: hpke.X_WING, KDFID: hpke.HKDFSHA256, AEADID: hpke.AES128GCM, Variant: hpke.VariantTink}))
 	pq["HPKE-MLKEM768"] = tk.Must(hpke.NewParameters(hpke.ParametersOpts{KEMID: hpke.ML_KEM768, KDFID: hpke.HKDFSHA256, AEADID: hpke.AES128GCM, Variant: hpke.VariantTink}))
+	pq["HPKE-MLKEM1024"] = tk.Must(hpke.NewParameters(hpke.ParametersOpts{KEMID: hpke.ML_KEM1024, KDFID: hpke.HKDFSHA384, AEADID: hpke.AES256GCM, Variant: hpke.VariantNoPrefix}))
+	pq["HPKE-P521"] = tk.Must(hpke.NewParameters(hpke.ParametersOpts{KEMID: hpke.DHKEM_P521_HKDF_SHA512, KDFID: hpke.HKDFSHA512, AEADID: hpke.ChaCha20Poly1305, Variant: hpke.VariantCrunchy}))
+	pq["ML-DSA-65-NO_PREFIX"] = tk.Must(mldsa.NewParameters(mldsa.MLDSA65, mldsa.VariantNoPrefix))
+	pq["SLH-DSA-SHAKE-256f"] = tk.Must(slhdsa.NewParameters(slhdsa.SHAKE, 128, slhdsa.FastSigning, slhdsa.VariantNoPrefix))
+	pq["RSA-SSA-PKCS1-2048"] = tk.Must(rsassapkcs1.NewParameters(2048, rsassapkcs1.SHA256, 65537, rsassapkcs1.VariantTink))
+	pq["RSA-SSA-PSS-2048"] = tk.Must(rsassapss.NewParameters(rsassapss.ParametersValues{ModulusSizeBits: 2048, SigHashType: rsassapss.SHA256, MGF1HashType: rsassapss.SHA256, PublicExponent: 65537, SaltLengthBytes: 32}, rsassapss.VariantNoPrefix))
 	names := make([]string, 0, len(pq))
 	for k := range pq {
 		names = append(names, k)
@@ -511,6 +545,15 @@ func TestFreshKeys(t *testing.T) {
 	sort.Strings(names)
 	for _, name := range names {
 		n := nOps(32)
+		if strings.HasPrefix(name, "RSA") {
+			n = nOps(512) // 64 in the quick tier is the floor of nOps; key generation dominates
+			if n > 64 {
+				n = 64
+			}
+			if evid.Tier() != "thorough" {
+				n = 12
+			}
+		}
 		var values [][]byte
 		for i := 0; i < n; i++ {
 			ks := keysetBytes(t, handleFromParams(t, pq[name]))
